@@ -29,12 +29,12 @@ type Stats struct {
 	Paths, Ended, Completed, Queries, Obligations, Unsat, Sat, Unknown int
 	Steps                                                             int64
 	Funcs, Stubs                                                      map[string]int
-	Asserts, Reached, Panics                                          map[string]int
+	Asserts, Reached, Panics, Forks                                   map[string]int
 	SolverTime                                                        time.Duration
 }
 
 func newStats() *Stats {
-	return &Stats{Funcs: map[string]int{}, Stubs: map[string]int{}, Asserts: map[string]int{}, Reached: map[string]int{}, Panics: map[string]int{}}
+	return &Stats{Funcs: map[string]int{}, Stubs: map[string]int{}, Asserts: map[string]int{}, Reached: map[string]int{}, Panics: map[string]int{}, Forks: map[string]int{}}
 }
 
 func (s *Stats) merge(o *Stats) {
@@ -62,6 +62,9 @@ func (s *Stats) merge(o *Stats) {
 	}
 	for k, v := range o.Panics {
 		s.Panics[k] += v
+	}
+	for k, v := range o.Forks {
+		s.Forks[k] += v
 	}
 }
 
@@ -175,6 +178,7 @@ func (r *Runner) runPath(solver *Solver, tt *TermTable, j job) (st *Stats, pendi
 	e := &Exec{prog: r.prog, tt: tt, solver: solver, globals: map[*ssa.Global]*Cell{}, prefix: j.prefix,
 		st: st, choices: map[string]int{}, cfg: r.cfg, pcSet: map[*Term]bool{}, inSeen: map[string]bool{}, harness: j.fn.Name()}
 	e.lenient = true
+	tInit := time.Now()
 	func() {
 		defer func() {
 			if rec := recover(); rec != nil {
@@ -188,6 +192,9 @@ func (r *Runner) runPath(solver *Solver, tt *TermTable, j job) (st *Stats, pendi
 		}
 	}()
 	e.lenient = false
+	if os.Getenv("SYMGO_TIMING") != "" {
+		logf("init: %v steps=%d", time.Since(tInit), e.steps)
+	}
 	e.steps = 0
 	st.Funcs = map[string]int{}
 	st.Stubs = map[string]int{}
